@@ -15,9 +15,9 @@ def target_vector(variant, enabled=True, perm="rw"):
         v["elements"] = [dict(attr="a", name="A", default="x", label="El A \u2603"), dict(attr="b", name="B", default="y")]
     elif kind == "number":
         fmt = NUMBER_FORMATS[variant]
-        # element A states its range, element B relies on the definition defaults
+        # element A states a range whose limits need more than six significant digits (a 24-bit encoder, a julian date)
         # element A states its range; element B's limits are floats that Python prints with an exponent
-        v["elements"] = [dict(attr="a", name="A", default=1.5, format=fmt, min=-400, max=400, step=1), dict(attr="b", name="B", default=2.25, format=fmt, min=-1e16, max=1e16, step=0.00001)]
+        v["elements"] = [dict(attr="a", name="A", default=1.5, format=fmt, min=-16777215, max=2400000.5, step=0.0000125), dict(attr="b", name="B", default=2.25, format=fmt, min=-1e16, max=1e16, step=0.00001)]
     elif kind == "switch":
         v["rule"] = variant.split("-")[1]
         v["elements"] = [dict(attr="a", name="A", default="On"), dict(attr="b", name="B"), dict(attr="c", name="C")]
